@@ -421,14 +421,6 @@ class ArgumentParser:
         # attached to it (e.g. -isystem/usr/include, -includeconfig.h).
         split_argv = []
         for arg in argv + self.compiler.options:
-            # A response file is not read: say so, rather than taking it
-            # for a source file.
-            if arg.startswith("@"):
-                log.warning(
-                    f"Response file '{arg[1:]}' is not read; "
-                    + "the options it contains are ignored.",
-                )
-                continue
             for flag in ["-isystem", "-include"]:
                 value = arg[len(flag) :]
                 if arg.startswith(flag) and value and value[0] != "-":
@@ -439,6 +431,16 @@ class ArgumentParser:
 
         # Make a best-effort attempt to parse arguments.
         args, unrecognized = parser.parse_known_args(split_argv, namespace)
+
+        # A response file is not read: say so, rather than taking it for a
+        # source file.
+        for arg in args.file + unrecognized:
+            if arg.startswith("@"):
+                log.warning(
+                    f"Response file '{arg[1:]}' is not read; "
+                    + "the options it contains are ignored.",
+                )
+        unrecognized = [a for a in unrecognized if not a.startswith("@")]
         if unrecognized:
             log.warning(f"Unrecognized arguments: '{' '.join(unrecognized)}'")
 
